@@ -13,7 +13,7 @@ CONFIG = dict(
              "which covers every decoded offer. Every other clause is proved at full strength for every input packet, "
              "every transaction id and every user modifier list of any length; a clause about a field is stated for "
              "the lists none of whose members writes that field (NoWrite), C15_modifiers_last/C15_last_writer/"
-             "C15_user_prevails covering the lists that do."),
+             "C15_user_prevails covering the lists that do; C15_requested_options_prevail: after a final WithRequestedOptions every code asked for, and every code requested before, is in option 55 (addCodes_mem, mem_addCodes_of_mem)."),
     rule=("v4build: (request lists incl. the builders' defaults moved by 8..128; option 54 / 50 of the inputs incl. all zeros, all ones, the packet's own siaddr / yiaddr; oracle c15 rule user-prevails also for WithRequestedOptions and WithNetboot as the last modifier) the seven real builders (New, NewDiscovery, NewInform, NewRequestFromOffer, NewRenewFromAck, "
           "NewReplyFromRequest, NewReleaseFromACK) called on generated input packets (any opcode/flags/addresses; options "
           "82, 61, 54, 55, 50, 53 each absent / nil / empty non-nil / non-empty; one third decoded from ToBytes output; "
